@@ -472,6 +472,8 @@ class ExtLib:
             if m == "get":
                 k = args[0]
                 return obj.get(k, args[1] if len(args) > 1 else kwargs.get("default"))
+            if m == "setdefault":
+                return obj.setdefault(args[0], args[1] if len(args) > 1 else None)
             if m == "keys":
                 return list(obj.keys())
             if m == "values":
